@@ -277,6 +277,42 @@ def body_header_hygiene(I, X, mutator="add", n=2):
     return ok, {"raised": raised, "items": items}
 
 
+def body_header_native_str(I, X, mutator="set", start="empty"):
+    """header values are native strings: a value given as an int is stored (and handed to the
+    server) as its decimal text, through every mutator, on an empty and on a filled Headers"""
+    from werkzeug.datastructures import Headers
+
+    n = X.int("n", 0, 99999)
+    h = I.call(Headers, ([] if start == "empty" else [("X-B", "2")],))
+    if mutator == "add":
+        I.call(h.add, ("X-C", n))
+    elif mutator == "set":
+        I.call(h.set, ("X-C", n))
+    elif mutator == "setitem":
+        I.call(h.__setitem__, ("X-C", n))
+    elif mutator == "setlist":
+        I.call(h.setlist, ("X-C", [n]))
+    elif mutator == "setdefault":
+        I.call(h.setdefault, ("X-C", n))
+    elif mutator == "update-dict":
+        I.call(h.update, ({"X-C": n},))
+    elif mutator == "ior":
+        I.call(h.__ior__, ({"X-C": n},))
+    elif mutator == "extend-list":
+        I.call(h.extend, ([("X-C", n)],))
+    elif mutator == "init":
+        h = I.call(Headers, ([("X-C", n)],))
+    wsgi = I.call(h.to_wsgi_list, ())
+    got = [v for k, v in wsgi if k == "X-C"]
+    ok = len(got) == 1
+    if ok:
+        from symex.seq import SSeq
+
+        ok = pand(isinstance(got[0], (str, SSeq)), peq(got[0], pstr(n)) if isinstance(got[0], (str, SSeq)) else False)
+    tname = type(got[0]).__name__ if got else None
+    return ok, {"value_type": "str" if tname == "SSeq" else ("int" if tname in ("SInt", "int") else tname)}
+
+
 def body_status(I, X):
     """status normalisation for ints: code and text stay consistent"""
     from werkzeug.wrappers import Response
@@ -333,6 +369,10 @@ def obligations(tier, seed):
         for n in (range(0, 5) if quick else range(0, 6)):
             out.append({"name": f"header_hygiene[{m},n={n}]", "body": "body_header_hygiene", "params": {"mutator": m, "n": n},
                         "opts": {"budget_s": 600, "ctx": {"max_cp": 0xFF}}, "witness": n == 2 and m == "add"})
+    for m in ("add", "set", "setitem", "setlist", "setdefault", "update-dict", "ior", "extend-list", "init"):
+        for start in ("empty", "filled"):
+            out.append({"name": f"header_native_str[{m},{start}]", "body": "body_header_native_str", "params": {"mutator": m, "start": start},
+                        "opts": {"budget_s": 600, "ctx": {"bv_ints": True}}})
     out.append({"name": "status[int]", "body": "body_status", "params": {}, "opts": {"budget_s": 600, "ctx": {"bv_ints": True}}, "witness": True})
     return out
 
